@@ -89,6 +89,12 @@ def run(ctx):
                             okk = bool(es) and all(_returns_before_loop(cfg, tgt, loop) and _assigns_const(body, cfg, tgt, True, loop) for _, tgt in es)
                             detail = "MatchSucceeded edge returns true: %s" % okk
         ctx.check(okk, "R2", "first-matching-sibling-wins:%s" % tag, ctx.where(body), detail)
+        # the walk is the only place a sibling is evaluated: a call of the per-policy function outside the loop (a direct lookup of
+        # "the" entry for this client, say) applies a sibling ahead of earlier ones that also match
+        family_calls = [(x, bb, tm) for x in P.family(body.id) for bb, tm in x.calls() if callee_name(tm) == callee]
+        outside = [P.rel(tm["sp"]) for x, bb, tm in family_calls if x.id != body.id or not any(bb in l for l in loops)]
+        ctx.check(not outside, "R2", "siblings-are-evaluated-only-by-the-walk:%s" % tag, ctx.where(body),
+                  "the per-policy function is also called outside the loop over the sibling list: %s" % (outside or "-"))
         if tag == "check":
             # a sibling without conditions whose children do not match must not end the search
             recs = [(bb, tm) for bb, tm in body.calls() if callee_name(tm) == body.id]
@@ -425,7 +431,9 @@ def _r5(ctx):
         req = {pl[0] for pl in b.var_places("request") if len(pl) == 1}
         for bb, tm in b.calls():
             cn = callee_name(tm) or ""
-            if not (cn.endswith("dhcp::handle_discover") or cn.endswith("dhcp::handle_request")) or len(tm["args"]) < 4:
+            if not cn and tm["callee"].get("ptr") is not None and len(tm["args"]) == 5:
+                cn = "(handler chosen as a function pointer)"       # `let handler: fn(..) = match type { .. }; handler(..)`
+            elif not (cn.endswith("dhcp::handle_discover") or cn.endswith("dhcp::handle_request")) or len(tm["args"]) < 4:
                 continue
             n += 1
             ctx.saw(b)
@@ -443,6 +451,40 @@ def _r5(ctx):
             mine = built and len(v[2]) == 2 and any(y[0] == "param" and y[1] in req for y in subterms(norm(v[2][1])))
             ctx.check(built and mine, "R5", "base-policy-built-for-this-request:%s" % cn.rsplit("::", 1)[-1], ctx.where(b, tm["sp"]),
                       "the base policy given to the handler must be build_default_config(conf, request) for the request in hand (is %s)" % show(v)[:160])
-    ctx.floor("R5", "handler calls given a base policy", n, 2)
+    ctx.floor("R5", "handler calls given a base policy", n, 1)
+    # every IPv4 prefix of `addresses` gets its sub-policy: the closure that builds it gives up (None) only for a prefix that is not
+    # IPv4 — a `?` on some detail (an MTU that does not fit, a missing router) would take the pool, netmask and router defaults with it
+    m = 0
+    padt = P.adt("erbium::config::Prefix")
+    v4 = [i for i, v in enumerate(padt["variants"]) if v["name"] == "V4"] if padt else []
+    for x in P.family(roots[0]):
+        if x.kind != "closure" or "Option<erbium::dhcp::config::Policy>" not in x.ret_ty().replace("std::option::", ""):
+            continue
+        m += 1
+        ctx.saw(x)
+        Tx = terms(P, x)
+        xcfg = cfg_of(x)
+        notv4 = []
+        for sb, t2 in x.terms():
+            if t2["k"] == "switch":
+                d = norm(Tx.at_term(t2["discr"], sb))
+                if d[0] == "discr" and v4:
+                    ty = ""
+                    try:
+                        ty = Tx.type_of(d[1]) or ""
+                    except Exception:
+                        ty = ""
+                    for v, tgt in xcfg.switch_edges(sb):
+                        if v != v4[0]:
+                            notv4.append((sb, tgt))
+        # (one early exit is part of the reviewed code: Ipv4Subnet::new(p4.network(), len).ok()? — the constructor refuses host bits and
+        # is given the masked address)
+        early = [P.rel(tm["sp"]) for bb, tm in x.calls() if "from_residual" in (callee_name(tm) or "") and
+                 not any(y[0] == "call" and str(y[1]).endswith("Ipv4Subnet::new") for a_ in Tx.call_args(bb) for y in subterms(norm(a_)))]
+        nones = [(bb, st["sp"]) for bb, idx, st in x.stmts() if tuple(st["p"]) == (0,) and st.get("rv") and st["rv"]["k"] == "agg" and st["rv"].get("variant") == "None"]
+        stray = [P.rel(sp) for bb, sp in nones if not edge_dominated(xcfg, notv4, bb)]
+        ctx.check(not early and not stray, "R5", "every-ipv4-prefix-gets-its-sub-policy", ctx.where(x),
+                  "the sub-policy of an `addresses` prefix is dropped on a path other than \"not an IPv4 prefix\": early exits %s, None at %s" % (early or "-", stray or "-"))
+    ctx.floor("R5", "per-prefix sub-policy builders", m, 1)
     ctx.check(okk, "R5", "base-policy:$self4<-request.serverip", ctx.where(P.bodies[roots[0]]),
               "the $self4 placeholder in dns-servers must be replaced by the receiving address")
